@@ -41,6 +41,18 @@ func envU64(name string, def uint64) uint64 {
 	return def
 }
 
+// checkedProperty is the property the current check decides. A profile
+// normally serves one property; LSSIM_PROPERTY lets another check reuse it
+// (C17 runs fleet profiles in the race build and only looks at C17 oracles).
+var propertyOverride = os.Getenv("LSSIM_PROPERTY")
+
+func checkedProperty(r *RunResult) string {
+	if propertyOverride != "" {
+		return propertyOverride
+	}
+	return r.Property
+}
+
 func sameClass(a, b Violation) bool {
 	return a.Property == b.Property && a.Oracle == b.Oracle && a.Signature == b.Signature
 }
@@ -48,7 +60,7 @@ func sameClass(a, b Violation) bool {
 // firstViolation returns the first violation of the profile's property.
 func firstViolation(r *RunResult) *Violation {
 	for i := range r.Violations {
-		if r.Violations[i].Property == r.Property {
+		if r.Violations[i].Property == checkedProperty(r) {
 			return &r.Violations[i]
 		}
 	}
@@ -281,6 +293,13 @@ func WorkerReplay(t *testing.T) {
 	prof := profiles[rf.Profile]
 	if prof == nil {
 		t.Fatalf("unknown profile %q", rf.Profile)
+	}
+	if rf.Property != prof.Property {
+		// recorded by a check that reuses the profile for another property
+		propertyOverride = rf.Property
+		if rf.Property == "C17" {
+			keepHealth = true
+		}
 	}
 	tape := NewReplayTape(rf.Tape, true)
 	if rf.BySeed {
